@@ -424,6 +424,11 @@ func runCfgCase(c *core.Ctx, lfsBin string, cs *cfgCase, idx int, probes map[str
 	// source 1: .lfsconfig at the given location
 	var kvs [][2]string
 	for _, n := range cs.Before {
+		if n == "ctx.dupkey" {
+			// the very line(s) under test, written a first time
+			kvs = append(kvs, pr.kv(w, 1)...)
+			continue
+		}
 		if n == "ctx.samekey" {
 			// the same key, set to exactly what Git's own configuration says (the second source's lines)
 			kvs = append(kvs, pr.kv(w, 2)...)
